@@ -61,6 +61,8 @@ struct Shared {
     mode: u8, // 0 ok, 1 err, 2 delay
     sends: Vec<SendRec>,
     t0: Option<Instant>,
+    /// how long a delayed send takes (default DELAY)
+    delay: Option<Duration>,
 }
 
 struct ScriptedTransport {
@@ -91,17 +93,17 @@ impl Socket for ScriptedSocket {
             MessageView::Ack { .. } => "ack",
             MessageView::BadCluster => "badcluster",
         };
-        let mode = {
+        let (mode, delay) = {
             let mut s = self.shared.lock().unwrap();
             let at = Instant::now() - s.t0.unwrap();
             let mode = s.mode;
             s.sends.push(SendRec { at, to, kind, outcome: ["ok", "err", "delay"][mode as usize] });
-            mode
+            (mode, s.delay.unwrap_or(DELAY))
         };
         match mode {
             1 => Err(anyhow::anyhow!("scripted send failure (e.g. EMSGSIZE / unreachable)")),
             2 => {
-                tokio::time::sleep(DELAY).await;
+                tokio::time::sleep(delay).await;
                 Ok(())
             }
             _ => Ok(()),
@@ -144,7 +146,7 @@ pub async fn scenario(script: &[Ev], extra_in: Extra, out: &mut ScOut) {
     let extra = if everywhere { Extra::UserLock(usize::MAX) } else { extra_in };
     let seed_addr = addr(30_001);
     let peer_addr = addr(30_002);
-    let shared = Arc::new(Mutex::new(Shared { mode: 0, sends: vec![], t0: Some(Instant::now()) }));
+    let shared = Arc::new(Mutex::new(Shared { mode: 0, sends: vec![], t0: Some(Instant::now()), delay: None }));
     let (tx, rx) = mpsc::unbounded_channel();
     let transport = ScriptedTransport { shared: shared.clone(), rx: Mutex::new(Some(rx)) };
     let handle = match spawn_chitchat(server_config(30_000, seed_addr), vec![], &transport).await {
@@ -348,6 +350,188 @@ pub async fn scenario(script: &[Ev], extra_in: Extra, out: &mut ScOut) {
             }
         }
     }
+}
+
+
+/// Persistently slow transport: EVERY send takes `delay` (longer than the gossip interval) for the whole run, so every
+/// round overruns its interval. The peer's fresh heartbeats reach the node's state once per virtual second through the
+/// shared lock (exact arrival instants, no contention with the loop's own receive branch). A slow round is still a
+/// whole round: it ends with its liveness evaluation, so the steadily heartbeating peer is live at the end; the
+/// node's own heartbeat keeps rising and user access never blocks.
+pub async fn slow_rounds_scenario(delay: Duration, horizon: u64, out: &mut ScOut) {
+    let what = format!("slow transport: every send takes {delay:?} during {horizon} virtual seconds (gossip interval 1 s)");
+    let seed_addr = addr(30_001);
+    let peer_addr = addr(30_002);
+    let shared = Arc::new(Mutex::new(Shared { mode: 2, sends: vec![], t0: Some(Instant::now()), delay: Some(delay) }));
+    let (_tx, rx) = mpsc::unbounded_channel();
+    let transport = ScriptedTransport { shared: shared.clone(), rx: Mutex::new(Some(rx)) };
+    let handle = match spawn_chitchat(server_config(30_000, seed_addr), vec![], &transport).await {
+        Ok(h) => h,
+        Err(e) => {
+            out.findings.push(Finding::new(&["C19"], "server.spawn_failed", format!("{what}: {e:#}")));
+            return;
+        }
+    };
+    let peer_id = WId { node_id: "peer".into(), generation: 0, addr: peer_addr };
+    let pid = crate::common::cid(&peer_id);
+    tokio::time::sleep(Duration::from_millis(500)).await;
+    let mut peer_hb = 3u64;
+    for k in 0..horizon {
+        peer_hb += 1;
+        let bytes = syn_bytes("c", &[WDigestEntry { id: peer_id.clone(), heartbeat: peer_hb, last_gc: 0, max_version: 0 }]);
+        out.c.inc("user_lock_acquisitions");
+        let r = tokio::time::timeout(Duration::from_millis(1), handle.with_chitchat(|c| {
+            let _ = crate::craft::feed(c, &bytes);
+        }))
+        .await;
+        if r.is_err() {
+            out.findings.push(Finding::new(&["C19"], "server.user_access_blocked", format!("{what}: with_chitchat did not return at t={k}.5 s (the loop holds the lock across a slow send)")));
+            return;
+        }
+        out.c.inc("heartbeats_fed_through_the_lock");
+        tokio::time::sleep(Duration::from_secs(1)).await;
+    }
+    let (live, own_hb) = handle
+        .with_chitchat(|c| {
+            let live = c.live_nodes().any(|l| l == &pid);
+            (live, u64::from(c.self_node_state().heartbeat()))
+        })
+        .await;
+    out.c.inc("slow_transport_scenarios");
+    if !live {
+        out.findings.push(Finding::new(&["C19"], "server.liveness_not_evaluated", format!("{what}: the peer's heartbeat rose once per second for {horizon} s, it is still not live: slow rounds never reach (or skip) their liveness evaluation")));
+    } else {
+        out.c.inc("liveness_during_faults_checked");
+    }
+    // a round sends to at most peer + seed: it lasts at most 2 x delay, so at least horizon / (2 x delay) - 1 rounds began
+    let min_rounds = (horizon as f64 / (2.0 * delay.as_secs_f64())).floor() as u64;
+    if own_hb + 1 < min_rounds {
+        out.findings.push(Finding::new(&["C19"], "server.rounds_stalled", format!("{what}: own heartbeat is {own_hb} after {horizon} s, at least {} rounds must have begun", min_rounds.saturating_sub(1))));
+    }
+    shared.lock().unwrap().mode = 0;
+    match tokio::time::timeout(Duration::from_secs(60), handle.shutdown()).await {
+        Ok(Ok(())) => out.c.inc("clean_shutdowns"),
+        Ok(Err(e)) => out.findings.push(Finding::new(&["C19"], "server.shutdown_error", format!("{what}: final shutdown returned {e:#}"))),
+        Err(_) => out.findings.push(Finding::new(&["C19"], "server.shutdown_hangs", format!("{what}: final shutdown did not complete within 60 virtual seconds"))),
+    }
+    out.c.add("sends_logged", shared.lock().unwrap().sends.len() as u64);
+}
+
+/// C17 at the caller: the pools the real gossip round hands to the selection function. `nl` peers keep heartbeating
+/// (fed through the shared lock once per virtual second), `nd` peers fall silent after 5 s: they are evaluated dead,
+/// later scheduled for deletion (half the dead-node grace period) and finally forgotten. Before every round the
+/// harness reads the node's live / dead / known sets; the SYN destinations of that round (scripted transport) must
+/// obey the statement for exactly those sets.
+pub async fn pools_scenario(nl: usize, nd: usize, grace_s: u64, out: &mut ScOut) {
+    let what = format!("server pools: {nl} heartbeating peers, {nd} peers silent after 5 s, dead-node grace {grace_s} s");
+    let seed_addr = addr(30_001);
+    let self_addr = addr(30_000);
+    let shared = Arc::new(Mutex::new(Shared { mode: 0, sends: vec![], t0: Some(Instant::now()), delay: None }));
+    let (_tx, rx) = mpsc::unbounded_channel();
+    let transport = ScriptedTransport { shared: shared.clone(), rx: Mutex::new(Some(rx)) };
+    let mut cfg = server_config(30_000, seed_addr);
+    cfg.failure_detector_config = FailureDetectorConfig { phi_threshold: 3.0, sampling_window_size: 10, max_interval: Duration::from_secs(2), initial_interval: Duration::from_secs(1), dead_node_grace_period: Duration::from_secs(grace_s) };
+    let handle = match spawn_chitchat(cfg, vec![], &transport).await {
+        Ok(h) => h,
+        Err(e) => {
+            out.findings.push(Finding::new(&["C17"], "server.spawn_failed", format!("{what}: {e:#}")));
+            return;
+        }
+    };
+    let lives: Vec<WId> = (0..nl).map(|i| WId { node_id: format!("live{i}"), generation: 0, addr: addr(30_010 + i as u16) }).collect();
+    let deads: Vec<WId> = (0..nd).map(|i| WId { node_id: format!("dead{i}"), generation: 0, addr: addr(30_020 + i as u16) }).collect();
+    tokio::time::sleep(Duration::from_millis(500)).await;
+    let horizon = grace_s + 25;
+    let mut hbv = 1u64;
+    for k in 0..horizon {
+        hbv += 1;
+        let mut digest: Vec<WDigestEntry> = lives.iter().map(|id| WDigestEntry { id: id.clone(), heartbeat: hbv, last_gc: 0, max_version: 0 }).collect();
+        if k < 5 {
+            digest.extend(deads.iter().map(|id| WDigestEntry { id: id.clone(), heartbeat: hbv, last_gc: 0, max_version: 0 }));
+        }
+        let bytes = syn_bytes("c", &digest);
+        let (live, dead, peers, sched): (Vec<SocketAddr>, Vec<SocketAddr>, Vec<SocketAddr>, usize) = handle
+            .with_chitchat(|c| {
+                if !digest.is_empty() {
+                    let _ = crate::craft::feed(c, &bytes);
+                }
+                let me = c.self_chitchat_id().clone();
+                (
+                    c.live_nodes().filter(|i| **i != me).map(|i| i.gossip_advertise_addr).collect(),
+                    c.dead_nodes().map(|i| i.gossip_advertise_addr).collect(),
+                    c.node_states().keys().filter(|i| **i != me).map(|i| i.gossip_advertise_addr).collect(),
+                    c.scheduled_for_deletion_nodes().count(),
+                )
+            })
+            .await;
+        tokio::time::sleep(Duration::from_secs(1)).await;
+        // the round of virtual second k+1
+        let (lo, hi) = (Duration::from_millis(k * 1000 + 500), Duration::from_millis(k * 1000 + 1500));
+        let dests: Vec<SocketAddr> = shared.lock().unwrap().sends.iter().filter(|s| s.kind == "syn" && s.at > lo && s.at <= hi).map(|s| s.to).collect();
+        out.c.inc("server_rounds_checked");
+        out.c.add("server_round_syns", dests.len() as u64);
+        if sched > 0 {
+            out.c.inc("server_rounds_with_members_scheduled_for_deletion");
+        }
+        let ctx = format!("{what}: round at t={}s with live {live:?} dead {dead:?} known {peers:?} ({sched} scheduled for deletion) sent SYNs to {dests:?}", k + 1);
+        if dests.is_empty() {
+            out.findings.push(Finding::new(&["C17", "C19"], "pools.no_round", format!("{ctx}: no SYN at all (a seed exists)")));
+            break;
+        }
+        if dests.contains(&self_addr) || dests.iter().any(|d| !peers.contains(d) && *d != seed_addr) {
+            out.findings.push(Finding::new(&["C17"], "pools.foreign_target", format!("{ctx}: a target is the node itself or in none of the pools")));
+        }
+        if dests.len() > 5 {
+            out.findings.push(Finding::new(&["C17"], "pools.too_many", format!("{ctx}: more than 3 + 1 + 1 targets")));
+        }
+        if !live.is_empty() {
+            if dests.iter().filter(|d| dead.contains(d)).count() > 1 {
+                out.findings.push(Finding::new(&["C17"], "pools.too_many_dead", format!("{ctx}: more than one dead peer")));
+            }
+        } else if !dests.contains(&seed_addr) {
+            out.findings.push(Finding::new(&["C17"], "pools.seed_not_contacted", format!("{ctx}: no live peer is known and a seed exists, yet no seed is contacted")));
+        }
+        if dead.len() > live.len() {
+            out.c.inc("server_rounds_with_dead_outnumbering_live");
+            if !dests.iter().any(|d| dead.contains(d)) {
+                out.findings.push(Finding::new(&["C17"], "pools.dead_not_contacted", format!("{ctx}: dead peers outnumber live ones but no dead peer is contacted")));
+            }
+        }
+        if !out.findings.is_empty() {
+            break;
+        }
+    }
+    let _ = tokio::time::timeout(Duration::from_secs(30), handle.shutdown()).await;
+}
+
+/// The server-level part of C17 (skipped under Miri: it needs the tokio time driver and is covered natively).
+pub fn pools_part(args: &Args) -> (Vec<Finding>, Counters) {
+    let mut jobs: Vec<(usize, usize, u64)> = vec![];
+    let (maxl, maxd) = args.tier.pick((2usize, 3usize), (4usize, 5usize));
+    for nl in 0..=maxl {
+        for nd in 0..=maxd {
+            for g in args.tier.pick(vec![40u64], vec![20, 40, 90]) {
+                jobs.push((nl, nd, g));
+            }
+        }
+    }
+    let res = par_run(jobs.len() as u64, args.threads, |i| {
+        let rt = paused_rt();
+        let (nl, nd, g) = jobs[i as usize];
+        let mut out = ScOut { findings: vec![], c: Counters::default() };
+        if let Err(p) = catch(|| rt.block_on(pools_scenario(nl, nd, g, &mut out))) {
+            out.findings.push(Finding::new(&["harness"], "harness.panic", p));
+        }
+        Some(out)
+    });
+    let mut f = vec![];
+    let mut c = Counters::default();
+    for (_, o) in res {
+        c.merge(&o.c);
+        f.extend(o.findings);
+    }
+    c.add("server_pool_scenarios", jobs.len() as u64);
+    (f, c)
 }
 
 // --------------------------------------------------------------------------- real UDP on loopback
@@ -588,6 +772,22 @@ pub fn check(args: &Args) -> Outcome {
     }
     if done < jobs.len() {
         ev.inconclusive.push(format!("wall-clock watchdog: {} of {} scenarios not run", jobs.len() - done, jobs.len()));
+    }
+    // persistently slow transport: every round overruns its interval
+    if !args.has("--udp-only") {
+        for (delay_ms, horizon) in [(1200u64, 30u64), (1500, 30), (2500, 40), (4000, 60)] {
+            let rt = paused_rt();
+            let mut out = ScOut { findings: vec![], c: Counters::default() };
+            if let Err(p) = catch(|| rt.block_on(slow_rounds_scenario(Duration::from_millis(delay_ms), horizon, &mut out))) {
+                ev.inconclusive.push(format!("slow-transport scenario: harness panic {p}"));
+            }
+            ev.evaluations += 1;
+            ev.counters.merge(&out.c);
+            ev.distinct.insert(mix3(0x510, delay_ms, horizon));
+            for f in out.findings {
+                violations.push((f, json!({"engine": "E10-slow-transport", "delay_ms": delay_ms, "horizon_s": horizon})));
+            }
+        }
     }
     // real UDP on loopback (wall clock; a missing answer without termination is inconclusive, never a violation)
     let rounds = args.tier.pick(2u64, 20u64);
